@@ -121,6 +121,16 @@ class IdentityRun(PubSubRun):
                 return
             name = o["name"].decode()
             self.t(f"p{idx} {via} id={rid} multi={o['multi']} logger={o['logger']} daemon={o['daemon']} name={name!r}")
+            if ch.flag("id.racer", 1, 4):
+                # somebody else's connection request is already in flight: the manager serves it before, after or
+                # in the same round as the client's own
+                r = self.new_actor(f"r{len(self.actors)}")
+                r.protected = True
+                r.open()
+                r.handshake("v2v1", req_id=ch.choose("id.racer.id", [0, 0, 55]), allow_multiple=True, name=b"", pid=77)
+                r.subscribe(T)
+                self.res.probes["connect_with_a_racing_request"] += 1
+                self.t(f"  ({r.name}'s own connection request is in flight)")
             if via == "client":
                 c = pyrtma.Client(module_id=rid, timecode=self.w.timecode, name=name)
                 self.w.register_client_logger(c)
